@@ -230,16 +230,18 @@ def decStr : Dec → Str
 def pNat (s : Str) : Option Nat :=
   if !s.isEmpty && s.all Char.isDigit then some (Nat.ofDigitChars 10 s 0) else none
 
-def pInt (s : Str) : Option Int :=
+def splitNeg (s : Str) : Bool × Str :=
   match s with
-  | '-' :: r => (pNat r).map fun n => -(n : Int)
-  | _ => (pNat s).map fun n => (n : Int)
+  | '-' :: r => (true, r)
+  | _ => (false, s)
+
+def pInt (s : Str) : Option Int :=
+  let (neg, body) := splitNeg s
+  (pNat body).map fun n => if neg then -(n : Int) else (n : Int)
 
 /-- `Decimal(s)`: what `decStr` writes, and plain integers (`str(int)`) -/
 def decOfStr (s : Str) : Option Dec :=
-  let (neg, body) : Bool × Str := match s with
-    | '-' :: r => (true, r)
-    | _ => (false, s)
+  let (neg, body) := splitNeg s
   if body = "Infinity".toList then some (.inf neg)
   else if s = "NaN".toList then some .nan
   else
